@@ -198,7 +198,7 @@ def _call(mon, case, which, ref, hyp, **over):
     import pydrobert.torch.functional as F
     import pydrobert.torch.modules as M
 
-    ins, dl, sub = case["costs"]
+    ins, dl, sub = G.costs_as_given(case)
     kw = dict(eos=case["eos"], include_eos=case["include_eos"], norm=case["norm"],
               batch_first=case["batch_first"], ins_cost=ins, del_cost=dl, sub_cost=sub, warn=False)
     if which == "prefix_error_rates":
@@ -346,7 +346,7 @@ def _call_loss(mon, case, lp, ref, hyp):
     import pydrobert.torch.functional as F
     import pydrobert.torch.modules as M
 
-    ins, dl, sub = case["costs"]
+    ins, dl, sub = G.costs_as_given(case)
     kw = dict(eos=case["eos"], include_eos=case["include_eos"], sub_avg=case["sub_avg"],
               batch_first=case["batch_first"], norm=case["norm"], ins_cost=ins, del_cost=dl,
               sub_cost=sub, reduction=case["reduction"])
